@@ -320,7 +320,10 @@ def execute(rundir, argv, cwd, tz, plan_text, timeout=60.0, binary=None, keep_pl
     out_path = os.path.join(rundir, "out")
     err_path = os.path.join(rundir, "err")
     home = os.path.join(rundir, "home")
-    os.makedirs(home, exist_ok=True)
+    # a fresh HOME for every execution: fselect saves its configuration on the first run and
+    # parses it on later ones, which shifts the per-process hash seeds (found by the C17.C prefix law)
+    shutil.rmtree(home, ignore_errors=True)
+    os.makedirs(home)
     with open(plan_path, "w") as f:
         f.write(plan_text)
     env = dict(BASE_ENV)
